@@ -168,6 +168,9 @@ def main(tier: str, seed: int) -> int:
                 'float_to_bytes. traces: 2^k + d for k up to 16384, random integers up to 8192 bits, random byte strings, '
                 'float patterns for every exponent, logged from the implementation as sign + magnitude bytes / exact '
                 'dyadic values and judged by TLC (ValidEnc, DecS, FClass, FValue). non-trivial = distinct case.')
+    rep.rule += (' Instruction level: ADD / SUBTRACT / MULT / DIV / MOD (stack and tape-operand forms, signed, zero, padded '
+                 'operands), SIZE, LESS, LESS_OR_EQUAL, INT_TO_FLOAT, FLOAT_TO_INT on 2^k + d up to 8192 bits and random big integers '
+                 'are recorded from run_script and validated step by step against TapeVM (all clauses).')
     rep.assumptions = ['a valid encoding may be one byte longer than minimal (the property does not require minimality; '
                        'the implementation sizes with a floating-point log2 above 2^53)',
                        'NaN payload bits are platform behaviour and are not compared']
@@ -220,6 +223,12 @@ def main(tier: str, seed: int) -> int:
             else:
                 rep.traces += 1
     rep.sample({'trace_case': cases[len(cases) // 2]})
+    # integer instructions at any magnitude: recorded runs of the integer / conversion instructions on boundary and huge
+    # operands, validated instruction by instruction against TapeVM (limb arithmetic; reference integers for big division)
+    from .. import vmcheck
+    n_ops = 1500 if quick else 20000
+    traces = vmcheck.record([('vf.gen.runs:make_intops', seed * 1_000_003 + i, {}) for i in range(n_ops)])
+    vmcheck.check_traces(rep, traces, 'integer instructions on boundary / huge operands (make_intops)')
     return rep.finish()
 
 
